@@ -69,7 +69,7 @@ def import_closure(modules):
 
 def grep_forbidden(modules):
     hits = []
-    files = import_closure(list(modules) + ["PyFV", "PyFV.Gen.Limiters"]) + [os.path.join(LEAN, "Driver.lean")]
+    files = import_closure(list(modules) + ["PyFV", "PyFV.Gen.Limiters"]) + [os.path.join(LEAN, f) for f in ("Driver.lean", "DriverState.lean", "DriverErr.lean") if os.path.exists(os.path.join(LEAN, f))]
     for f in files:
         body = strip_comments(open(f).read())
         for ln, line in enumerate(body.split("\n"), 1):
